@@ -151,6 +151,8 @@ def run(P, R, tier):
     check_score(P, R, FA + "ISVMachine.score", [["mean_supervector", "ubm.means"], ["_D"]])
     check_score(P, R, FA + "JFAMachine.score", [["mean_supervector", "ubm.means"], ["_D"], ["_V"]])
     check_estimate_x(P, R)
+    from ..engines import dimrun as _dr
+    _dr.route(P, R, ["fa.fn_x"], rules=["DIM.", "EXT."], where_prefix=["factor_analysis:"])
     # estimate_ux = U @ estimate_x
     f = P.func(FA + "FactorAnalysisBase.estimate_ux")
     du = get_defuse(f, P)
